@@ -9,9 +9,11 @@ Two scopes have the same *visible bindings* (`Scope.equivVisible`) when the top-
 (a one-segment qualified name is a plain lookup, so the second implies the first).  The
 evaluator reads the scope through exactly these two functions, and everything it pushes it
 pushes on both scopes alike: evaluation in two scopes with the same qualified bindings has the
-same outcome.  Visible bindings alone do not suffice: `search_deep` looks for a context that
-has the *whole* qualified name, so it sees through a binding of the first segment that shadows
-it (`Props/C01.lean`, `eval_depends_on_bindings_counterexample`).
+same outcome.  Since `Scope::search_deep` resolves the first segment exactly as `get_entry` does
+(the first context from the top that binds it decides), the qualified bindings are a function of
+the visible ones (`scopeSearchDeep_eq_visible'`), so the same visible bindings suffice
+(`equivDeep_of_equivVisible'`; before the repair of `search_deep` a shadowed binding of the first
+segment could answer: finding F-C01-qualified-name-shadow, fixed).
 -/
 
 namespace Dmn
@@ -26,16 +28,32 @@ def Scope.equivDeep (s1 s2 : Scope) : Prop :=
 namespace Eval
 open EvalM
 
+/-- `find?` by `contains` and `findSome?` by `get` pick the same context. -/
+theorem findSome_get_eq_find (l : List Ctx) (k : String) :
+    l.findSome? (fun c => Ctx.get c k) = (match l.find? (fun c => Ctx.contains c k) with
+      | some c => Ctx.get c k
+      | none => none) := by
+  induction l with
+  | nil => rfl
+  | cons c l ih =>
+    cases hc : Ctx.get c k with
+    | none => simp [Ctx.contains, hc, ih]
+    | some v => simp [Ctx.contains, hc]
+
 theorem scopeSearchDeep_single (s : Scope) (k : String) : scopeSearchDeep s [k] = Scope.getEntry s k := by
-  simp only [scopeSearchDeep, Scope.getEntry, ctxSearchDeep]
+  simp only [scopeSearchDeep, Scope.getEntry, findSome_get_eq_find]
+  cases List.find? (fun c => Ctx.contains c k) s.reverse <;> rfl
 
 theorem scopeSearchDeep_push (s : Scope) (c : Ctx) (names : List String) :
-    scopeSearchDeep (s ++ [c]) names = (match ctxSearchDeep c names with
-      | some v => some v
-      | none => scopeSearchDeep s names) := by
-  simp only [scopeSearchDeep, List.reverse_append, List.reverse_cons, List.reverse_nil,
-    List.nil_append, List.cons_append, List.findSome?_cons]
-  cases ctxSearchDeep c names <;> rfl
+    scopeSearchDeep (s ++ [c]) names = (match names with
+      | [] => none
+      | first :: _ => if Ctx.contains c first then ctxSearchDeep c names else scopeSearchDeep s names) := by
+  cases names with
+  | nil => rfl
+  | cons first rest =>
+    simp only [scopeSearchDeep, List.reverse_append, List.reverse_cons, List.reverse_nil,
+      List.nil_append, List.cons_append, List.find?_cons]
+    cases Ctx.contains c first <;> rfl
 
 theorem equivVisible_of_equivDeep {s1 s2 : Scope} (h : Scope.equivDeep s1 s2) : Scope.equivVisible s1 s2 := by
   intro k
@@ -45,7 +63,10 @@ theorem equivVisible_of_equivDeep {s1 s2 : Scope} (h : Scope.equivDeep s1 s2) : 
 theorem equivDeep_push {s1 s2 : Scope} (h : Scope.equivDeep s1 s2) (c : Ctx) :
     Scope.equivDeep (s1 ++ [c]) (s2 ++ [c]) := by
   intro names
-  rw [scopeSearchDeep_push, scopeSearchDeep_push, h names]
+  rw [scopeSearchDeep_push, scopeSearchDeep_push]
+  cases names with
+  | nil => rfl
+  | cons first rest => simp only [h (first :: rest)]
 
 theorem equivDeep_refl (s : Scope) : Scope.equivDeep s s := fun _ => rfl
 
@@ -301,14 +322,7 @@ theorem scope_rev_induction {P : Scope → Prop} (nil : P [])
   | nil => exact nil
   | cons c r ih => simpa using snoc _ c ih
 
-theorem scopeSearchDeep_nil (s : Scope) : scopeSearchDeep s [] = none := by
-  simp [scopeSearchDeep, ctxSearchDeep]
-
-theorem scopeSearchDeep_none_of_unbound (s : Scope) (n m : String) (rest : List String)
-    (h : ∀ d ∈ s, Ctx.get d n = none) : scopeSearchDeep s (n :: m :: rest) = none := by
-  simp only [scopeSearchDeep, List.findSome?_eq_none_iff, List.mem_reverse]
-  intro d hd
-  simp [ctxSearchDeep, h d hd]
+theorem scopeSearchDeep_nil (s : Scope) : scopeSearchDeep s [] = none := rfl
 
 theorem getEntry_none_of_unbound (s : Scope) (n : String) (h : ∀ d ∈ s, Ctx.get d n = none) :
     Scope.getEntry s n = none := by
@@ -323,40 +337,47 @@ theorem getEntry_push (s : Scope) (c : Ctx) (k : String) :
     List.nil_append, List.cons_append, List.findSome?_cons]
   cases Ctx.get c k <;> rfl
 
-/-- In a scope without shadowing `Scope::search_deep` is a function of the visible bindings. -/
-theorem scopeSearchDeep_eq_visible (s : Scope) (h : NoShadow s) (names : List String) :
+theorem searchDeep_aux (l : List Ctx) (n : String) (rest : List String) :
+    (match l.find? (fun c => Ctx.contains c n) with
+      | some c => ctxSearchDeep c (n :: rest)
+      | none => none) =
+    (match rest with
+      | [] => l.findSome? (fun c => Ctx.get c n)
+      | m :: r =>
+        match l.findSome? (fun c => Ctx.get c n) with
+        | some (.ctx sub) => ctxSearchDeep sub (m :: r)
+        | _ => none) := by
+  induction l with
+  | nil => cases rest <;> rfl
+  | cons c l ih =>
+    cases hc : Ctx.get c n with
+    | none =>
+      have hcn : Ctx.contains c n = false := by simp [Ctx.contains, hc]
+      simp only [List.find?_cons, hcn, List.findSome?_cons, hc]
+      exact ih
+    | some v =>
+      have hcn : Ctx.contains c n = true := by simp [Ctx.contains, hc]
+      simp only [List.find?_cons, hcn, List.findSome?_cons, hc]
+      cases rest with
+      | nil => simp [ctxSearchDeep, hc]
+      | cons m r =>
+        cases v <;> simp [ctxSearchDeep, hc]
+
+/-- `Scope::search_deep` is a function of the visible bindings — in every scope. -/
+theorem scopeSearchDeep_eq_visible' (s : Scope) (names : List String) :
     scopeSearchDeep s names = visibleSearchDeep s names := by
   match names with
-  | [] => rw [scopeSearchDeep_nil]; rfl
+  | [] => rfl
   | [n] => rw [scopeSearchDeep_single]; rfl
   | n :: m :: rest =>
-    induction s using scope_rev_induction with
-    | nil => simp [scopeSearchDeep, visibleSearchDeep, Scope.getEntry]
-    | snoc s c ih =>
-      obtain ⟨hs, hdis⟩ := (noShadow_append_single s c).mp h
-      rw [scopeSearchDeep_push]
-      simp only [visibleSearchDeep, getEntry_push]
-      cases hc : Ctx.get c n with
-      | none =>
-        have : ctxSearchDeep c (n :: m :: rest) = none := by simp [ctxSearchDeep, hc]
-        rw [this]
-        simpa [visibleSearchDeep] using ih hs
-      | some v =>
-        have hun : ∀ d ∈ s, Ctx.get d n = none := by
-          intro d hd
-          rcases hdis d hd n with h1 | h1
-          · exact h1
-          · rw [hc] at h1; cases h1
-        have hbelow := scopeSearchDeep_none_of_unbound s n m rest hun
-        cases v with
-        | ctx sub =>
-          have : ctxSearchDeep c (n :: m :: rest) = ctxSearchDeep sub (m :: rest) := by
-            simp [ctxSearchDeep, hc]
-          rw [this, hbelow]
-          cases hsub : ctxSearchDeep sub (m :: rest) <;> simp [hsub]
-        | _ =>
-          have : ctxSearchDeep c (n :: m :: rest) = none := by simp [ctxSearchDeep, hc]
-          rw [this, hbelow]
+    simp only [scopeSearchDeep, visibleSearchDeep, Scope.getEntry]
+    exact searchDeep_aux s.reverse n (m :: rest)
+
+/-- In a scope without shadowing `Scope::search_deep` is a function of the visible bindings
+(the form that held before the repair; now a special case of `scopeSearchDeep_eq_visible'`). -/
+theorem scopeSearchDeep_eq_visible (s : Scope) (_h : NoShadow s) (names : List String) :
+    scopeSearchDeep s names = visibleSearchDeep s names :=
+  scopeSearchDeep_eq_visible' s names
 
 theorem visibleSearchDeep_congr {s1 s2 : Scope} (h : Scope.equivVisible s1 s2) (names : List String) :
     visibleSearchDeep s1 names = visibleSearchDeep s2 names := by
@@ -365,12 +386,16 @@ theorem visibleSearchDeep_congr {s1 s2 : Scope} (h : Scope.equivVisible s1 s2) (
   | [n] => exact h n
   | n :: m :: rest => simp only [visibleSearchDeep, h n]
 
+/-- Scopes that have the same visible bindings have the same qualified bindings. -/
+theorem equivDeep_of_equivVisible' {s1 s2 : Scope} (h : Scope.equivVisible s1 s2) : Scope.equivDeep s1 s2 := by
+  intro names
+  rw [scopeSearchDeep_eq_visible' s1, scopeSearchDeep_eq_visible' s2]
+  exact visibleSearchDeep_congr h names
+
 /-- Scopes without shadowing that have the same visible bindings have the same qualified bindings. -/
 theorem equivDeep_of_equivVisible {s1 s2 : Scope} (h : Scope.equivVisible s1 s2)
-    (h1 : NoShadow s1) (h2 : NoShadow s2) : Scope.equivDeep s1 s2 := by
-  intro names
-  rw [scopeSearchDeep_eq_visible s1 h1, scopeSearchDeep_eq_visible s2 h2]
-  exact visibleSearchDeep_congr h names
+    (_h1 : NoShadow s1) (_h2 : NoShadow s2) : Scope.equivDeep s1 s2 :=
+  equivDeep_of_equivVisible' h
 
 end Eval
 end Dmn
